@@ -441,6 +441,9 @@ register(PropertySpec(
         Rule("BIND-KEEP", binding.rule_bind_keep, 12,
              "in every loop over an evaluation stream that hands rows on, the whole binding of the loop variable flows "
              "into each row (copy/update/itself), never only a projection of it"),
+        Rule("DEDUP-PARENT", binding.rule_dedup_parent, 5,
+             "every implementation of the duplicate-suppression key merges in what the node's own parent requires, on "
+             "every path (abstract-state-aware must-pass-through)"),
         Rule("DEDUP-KEY", binding.rule_dedup_key, 3,
              "every implementation of the duplicate-suppression key on a binary operator keys the rows of its left child "
              "by the right operand's variables"),
@@ -518,6 +521,17 @@ register(PropertySpec(
              "the construction self._type_(**…) runs exactly once per argument combination (counting domain over the "
              "CFG), and for an inferred variable the registry is never consulted instead (abstract interpretation with "
              "_is_inferred_ = True)"),
+        Rule("BIND-KEEP", _lazy("binding", "rule_bind_keep"), 12,
+             "(shared with C02) the rows the rule head is built from keep everything the body bound"),
+        Rule("DEDUP-KEY", _lazy("binding", "rule_dedup_key"), 3, "(shared with C02) duplicate-suppression keys"),
+        Rule("DEDUP-PARENT", _lazy("binding", "rule_dedup_parent"), 5,
+             "(shared with C02) a satisfying assignment that differs only in a head variable is not a duplicate"),
+        Rule("RESULT-NO-ALIAS", _lazy("cacheidx", "rule_result_no_alias"), 2,
+             "(shared with C20) cache replays do not mix the bindings of different rows"),
+        Rule("CACHE-FLAG-CONSISTENT", _lazy("cacheidx", "rule_cache_flag_consistent"), 5,
+             "(shared with C05) a cached row is replayed with its own truth flag"),
+        Rule("NEG-TABLE", _lazy("negation", "rule_neg_table"), 21,
+             "(shared with C03) negated comparisons in rule bodies use the true inverse operator"),
         Rule("ID-KEEP", infer_rules.rule_id_keep, 10,
              "constructor keyword values are the .value of the bound HashedValues; every copy() in the package takes a "
              "binding dict, never a user object"),
